@@ -73,7 +73,8 @@ func c06Valid(p *driver.Plan) bool {
 		}
 		// computation costs no virtual time: a timer can only stop Unfold if
 		// its consumer lets time pass, or somebody else ends the run
-		if stage == "Unfold" && p.Consumer(0).Abandon < 0 && p.CancelStep < 0 {
+		zeroTime := stage == "Unfold" || planInterval(p) == 0
+		if zeroTime && p.Consumer(0).Abandon < 0 && p.CancelStep < 0 {
 			slow := false
 			for _, d := range p.Consumer(0).DelaysMs {
 				slow = slow || d > 0
